@@ -135,9 +135,10 @@ class Ctx:
     # -- finishing ------------------------------------------------------------
     def finish(self) -> int:
         # floors
+        rules_with_findings = {f.rule for f in self.findings}
         for rule, floor in self.floors.items():
             n = self.obligations.get(rule, 0)
-            if n < floor:
+            if n < floor and rule not in rules_with_findings:
                 raise AnalysisError(
                     f"rule {rule} matched {n} instance(s), below its floor {floor}: "
                     f"the idiom it is bound to is no longer recognised"
